@@ -43,7 +43,7 @@ func TestMain(m *testing.M) {
 // mutation family
 
 type mut struct {
-	Kind string `json:"kind"` // id trunc byte flip len dup del
+	Kind string `json:"kind"` // id trunc byte flip len dup del field
 	Off  int    `json:"off,omitempty"`
 	Val  int    `json:"val,omitempty"` // byte: index into byteVals; len: index into lenVals; dup/del: block size
 	W    int    `json:"w,omitempty"`   // len: width 2/4/8
@@ -121,6 +121,10 @@ func apply(data []byte, m mut) []byte {
 			copy(out[m.Off:m.Off+m.W], b[:m.W])
 		}
 		return out
+	case "field":
+		// Off = first bit, W = bit length of a leaf field of the unmodified
+		// decode; Val selects the pattern written over (part of) it
+		return applyField(data, m)
 	case "dup":
 		if m.Off+m.Val > len(data) {
 			return data
@@ -140,6 +144,97 @@ func apply(data []byte, m mut) []byte {
 		return out
 	}
 	return data
+}
+
+const nFieldVals = 8
+
+func setBit(b []byte, i int, v bool) {
+	if v {
+		b[i>>3] |= 1 << (7 - uint(i&7))
+	} else {
+		b[i>>3] &^= 1 << (7 - uint(i&7))
+	}
+}
+
+// applyField overwrites a field found by decoding the unmodified file: whole
+// field zero / ones / sign bit only / all but sign (fields up to 64 bits), and
+// first byte 0x20 / 0x7f / +1 / -1 (any field of at least one byte; catches
+// length prefixes of strings and tags).
+func applyField(data []byte, m mut) []byte {
+	if m.Off < 0 || m.W <= 0 || m.Off+m.W > len(data)*8 {
+		return data
+	}
+	out := append([]byte(nil), data...)
+	switch m.Val % nFieldVals {
+	case 0, 1, 2, 3:
+		n := m.W
+		if n > 64 {
+			n = 64
+		}
+		for i := 0; i < n; i++ {
+			var v bool
+			switch m.Val % nFieldVals {
+			case 0:
+				v = false
+			case 1:
+				v = true
+			case 2:
+				v = i == 0
+			case 3:
+				v = i != 0
+			}
+			setBit(out, m.Off+i, v)
+		}
+	default:
+		if m.W < 8 {
+			return data
+		}
+		// the first 8 bits of the field (not necessarily byte aligned)
+		var cur byte
+		for i := 0; i < 8; i++ {
+			cur = cur<<1 | (out[(m.Off+i)>>3]>>(7-uint((m.Off+i)&7)))&1
+		}
+		switch m.Val % nFieldVals {
+		case 4:
+			cur = 0x20
+		case 5:
+			cur = 0x7f
+		case 6:
+			cur++
+		case 7:
+			cur--
+		}
+		for i := 0; i < 8; i++ {
+			setBit(out, m.Off+i, cur&(1<<(7-uint(i))) != 0)
+		}
+	}
+	return out
+}
+
+// leafFields returns (first bit, bit length) of every leaf of the unmodified
+// home-format decode that lies in the file's own buffer.
+func leafFields(e fqx.Entry) [][2]int {
+	var out [][2]int
+	defer func() { _ = recover() }()
+	root, _, _ := fqx.Decode(context.Background(), e.Data, e.Format, false)
+	if root == nil {
+		return nil
+	}
+	seen := map[[2]int]bool{}
+	fqx.Walk(root, func(v *decode.Value, depth int) {
+		if _, ok := v.V.(*decode.Compound); ok {
+			return
+		}
+		if v.RootReader != root.RootReader || v.Range.Len <= 0 {
+			return
+		}
+		k := [2]int{int(v.Range.Start), int(v.Range.Len)}
+		if !seen[k] {
+			seen[k] = true
+			out = append(out, k)
+		}
+	})
+	return out
 }
 
 // family enumerates the whole mutation family of a file of length n.
@@ -605,6 +700,73 @@ func TestSmallFilesExhaustive(t *testing.T) {
 	harness.ExtraAdd("exhaustive_family_cases", total)
 	harness.Extra("exhaustive_family_file_limit_bytes", limit)
 	harness.ExtraAdd("exhaustive_family_files_x_shards", int64(len(files)))
+}
+
+// field-directed mutants: every leaf field of the unmodified decode of every
+// pool file x 8 overwrite patterns, on the home format and the probe.  The
+// thorough tier enumerates all of them; the quick tier all fields of files
+// with up to 400 leaves and a seed-rotated stride of the larger ones.
+func TestFieldMutants(t *testing.T) {
+	p := getPool()
+	// a field whose overwrite made the decode run into the watchdog once is
+	// not tried with the other patterns (each would cost another 10 s)
+	hungField := map[string]bool{}
+	if sp := os.Getenv("VERIF_SKIP"); sp != "" {
+		if b, err := os.ReadFile(sp); err == nil {
+			for _, l := range strings.Split(string(b), "\n") {
+				parts := strings.Split(l, "|")
+				if len(parts) == 5 && strings.HasPrefix(parts[3], "field:") {
+					mp := strings.Split(parts[3], ":")
+					hungField[parts[0]+"|"+mp[1]] = true
+				}
+			}
+		}
+	}
+	capPerFile := harness.N(3200, 1<<30)
+	var n, total int64
+	resume := harness.EnumResume(t.Name())
+	fi := 0
+	for _, f := range p.formats {
+		for _, e := range p.byFmt[f] {
+			fi++
+			if !harness.Mine(fi) {
+				continue
+			}
+			leaves := leafFields(e)
+			all := len(leaves) * nFieldVals
+			stride := 1
+			if all > capPerFile {
+				stride = (all + capPerFile - 1) / capPerFile
+			}
+			start := 0
+			if stride > 1 {
+				start = int(harness.E.Seed) % stride
+			}
+			for k := start; k < all; k += stride {
+				lf := leaves[k/nFieldVals]
+				m := mut{Kind: "field", Off: lf[0], W: lf[1], Val: k % nFieldVals}
+				if m.Val >= 4 && m.W < 8 {
+					continue
+				}
+				if hungField[e.Path+"|"+strconv.Itoa(m.Off)] {
+					harness.ExtraAdd("field_patterns_skipped_after_hang", 1)
+					continue
+				}
+				n++
+				if n <= resume {
+					continue
+				}
+				harness.EnumAt(t.Name(), n)
+				total++
+				format := e.Format
+				if k%16 >= 8 && e.Format != "probe" {
+					format = "probe"
+				}
+				do(t, caseT{Path: e.Path, Format: format, Mut: m})
+			}
+		}
+	}
+	harness.ExtraAdd("field_mutant_cases", total)
 }
 
 // replay of one case descriptor (violation replay files and process-death journals)
